@@ -237,6 +237,13 @@ func honoured(tier string) []cfgCase {
 		"doublestar":       {"./api/**/*.go"},
 		"overlapping":      {"./api/*.go", "./api/ctl_realctl.go"},
 		"with-nonmatching": {"./api/*.go", "./nowhere/*.go"},
+		// other spellings of the same directory (§ABS§ = the project directory, §BASE§ = its last element)
+		"no-dot-slash":    {"api/*.go"},
+		"absolute":        {"§ABS§/api/*.go"},
+		"via-parent":      {"../§BASE§/api/*.go"},
+		"dot-dot-inside":  {"./auth/../api/*.go"},
+		"same-dir-twice":  {"./api/*.go", "api/*.go"},
+		"one-file-no-dot": {"api/ctl_realctl.go"},
 	}
 	for name, g := range globSets {
 		name, g := name, g
@@ -302,8 +309,20 @@ func Main(tier, replay string) {
 				}
 			}
 		}
-		p.Config = cfg
 		dir := filepath.Join(scratch, c.ID)
+		if cc, ok := cfg["commonConfig"].(map[string]any); ok {
+			if g, ok := cc["controllerGlobs"].([]any); ok {
+				gg := make([]any, len(g))
+				for i, x := range g {
+					if sx, ok := x.(string); ok {
+						x = strings.ReplaceAll(strings.ReplaceAll(sx, "§ABS§", dir), "§BASE§", filepath.Base(dir))
+					}
+					gg[i] = x
+				}
+				cc["controllerGlobs"] = gg
+			}
+		}
+		p.Config = cfg
 		if err := p.Write(dir); err != nil {
 			core.Harness("cannot write project: %v", err)
 		}
@@ -444,7 +463,7 @@ func Main(tier, replay string) {
 		}
 		// only globbed controllers contribute
 		wantSecond := true
-		if g, ok := cfg["commonConfig"].(map[string]any)["controllerGlobs"].([]any); ok && len(g) == 1 && g[0] == "./api/ctl_realctl.go" {
+		if g, ok := cfg["commonConfig"].(map[string]any)["controllerGlobs"].([]any); ok && len(g) == 1 && (g[0] == "./api/ctl_realctl.go" || g[0] == "api/ctl_realctl.go") {
 			wantSecond = false
 		}
 		paths := spec.M(d["paths"])
@@ -461,7 +480,7 @@ func Main(tier, replay string) {
 	run.Set("configurations", len(cases))
 	run.Sample(map[string]any{"name": cases[0].Name, "features": cases[0].Feat})
 	run.Sample(map[string]any{"name": cases[len(cases)-1].Name, "features": cases[len(cases)-1].Feat})
-	run.Bound = fmt.Sprintf("%d configuration documents: %d violations of declared constraints (missing/null/empty/invalid enum/malformed url, e-mail, permission string, scheme type, location/wrong JSON kind), every single and pair of 12 optional fields removed (%d), 5 engines x 2 versions, 10 permission strings x 4 pre-existing file states, package names, 6 glob sets, 2 output path sets", len(cases), len(violations()), len(optionals()))
+	run.Bound = fmt.Sprintf("%d configuration documents: %d violations of declared constraints (missing/null/empty/invalid enum/malformed url, e-mail, permission string, scheme type, location/wrong JSON kind), every single and pair of 12 optional fields removed (%d), 5 engines x 2 versions, 10 permission strings x 4 pre-existing file states, package names, 12 glob sets, 2 output path sets", len(cases), len(violations()), len(optionals()))
 	run.Rule = "state = one configuration document over a fixed project with a decoy controller and (for violations) a trap file; transition = one run of the real CLI binary; validated = runs whose exit status, message, written files, modes, package clause, imports and spec sections were compared with the configuration"
 	run.Assumptions = []string{"constraints that are not declared in the configuration structs (e.g. contact/license URL syntax) are not judged", "umask 022; without configured permissions a newly created file is expected to be 0644"}
 	os.RemoveAll(scratch)
